@@ -23,7 +23,11 @@ RULE = ("in-memory charts over the five layouts: 1-8 (rarely up to 1294) 4/4 tem
         "unknown / empty samples, LNOBJ ids, misc headers; every list (tempo, hits, holds) built either directly or through a "
         "history of public operations that leaves non-default pandas row labels (rows handed over out of order + .sorted(), "
         ".append(sort=True), .after() / boolean mask removing rows, concat with kept labels) and optionally a map-level "
-        "stacker operation (rate(1.0), stack().offset += 0); the model is given the rows in row order; non-trivial = at least 2 tempo points with an object after "
+        "stacker operation (rate(1.0), stack().offset += 0); the model is given the rows in row order; each case runs a script on ONE chart object: write / write_file (bytes "
+        "read back from disk), the same object written twice, or write -> in-place edit through the list property setters "
+        "(hits.offset, hits.column, bpms.bpm, holds.length, holds.offset, map.bpms) -> write again; every write is judged "
+        "against the chart as it is at that moment and the chart is snapshotted (rows, labels, columns, header, tables) around "
+        "every write: a writer must not modify it; non-trivial = at least 2 tempo points with an object after "
         "the second, or an off-grid object, or a hold")
 ASSUMPTIONS = [
     "pandas row LABELS are outside the model (the writer model sees rows by position); they are exercised by the harness: "
@@ -187,7 +191,20 @@ def gen(rng, tier, i):
             hist[key] = [name, par]
     if rng.random() < 0.12:
         hist["map"] = rng.choice(["rate1", "stack_touch"])
-    return dict(claim="write", layout=layout, hist=hist, title=hx(rng.choice(["song", "a b  c", "x:y #1"])), artist=hx(rng.choice(["me", "A feat. B"])),
+    r = rng.random()
+    beat0 = 60000.0 / float(F(bpms[0][1]))
+    if r < 0.55:
+        ops = ["write"]
+    elif r < 0.75:
+        ops = ["write_file"]
+    elif r < 0.85:
+        ops = [rng.choice(["write", "write_file"]), rng.choice(["write", "write_file"])]        # the same object twice
+    else:
+        edit = rng.choice([dict(edit="hits_shift", ms=beat0 * rng.choice([1, 2, 4, 0.5])), dict(edit="hits_cols", k=rng.randrange(1, 4)),
+                           dict(edit="bpm_scale", f=rng.choice([2, 0.5])), dict(edit="holds_len", f=rng.choice([0.5, 2])),
+                           dict(edit="bpms_reverse"), dict(edit="holds_shift", ms=beat0 * rng.choice([1, 4]))])
+        ops = [rng.choice(["write", "write_file"]), edit, rng.choice(["write", "write_file"])]
+    return dict(claim="write", layout=layout, ops=ops, hist=hist, title=hx(rng.choice(["song", "a b  c", "x:y #1"])), artist=hx(rng.choice(["me", "A feat. B"])),
                 version=hx(rng.choice(["3", "12", ""])), ln_end=hx(lnobj), samples=[[hx(k), hx(v)] for k, v in samples.items()],
                 misc=misc, bpms=bpms, hits=hits, holds=holds, no_sample_default=hx("01"))
 
@@ -365,11 +382,125 @@ def labels_default(m):
     return all(list(l.df.index) == list(range(len(l.df))) for l in (m.bpms, m.hits, m.holds))
 
 
-def run_impl(case):
-    """returns (verdict, lines | error class, rows in row order | None, default labels?)"""
+POISON_CHART = dict(layout="PMS", title="65", artist="65", version="39", ln_end="5151", samples=[["5132", "652e776176"]],
+                    misc=[["47454e5245", "65"]], no_sample_default="3031",
+                    bpms=[[R(0), R(99)], [R(240000.0 / 99), R(33)]], hits=[[2, "652e776176", R(100.0)]],
+                    holds=[[3, "", R(5000.0), R(700.0)]])
+
+
+def snapshot(m):
+    """everything the writer can see of the chart, labels included"""
+    return dict(rows=rows_of(m),
+                labels=[list(map(str, l.df.index)) for l in (m.bpms, m.hits, m.holds)],
+                cols=[list(l.df.columns) for l in (m.bpms, m.hits, m.holds)],
+                head=[bytes(m.title).hex(), bytes(m.artist).hex(), bytes(m.version).hex(), bytes(m.ln_end_channel).hex()],
+                samples=[[bytes(k).hex(), bytes(v).hex()] for k, v in m.samples.items()],
+                misc=[[bytes(k).hex(), bytes(v).hex()] for k, v in m.misc.items()])
+
+
+def do_write(m, case, via):
+    import os
+    import tempfile
+    BMSMap, BMSChannel, *_ = _imports()
+    cfg = getattr(BMSChannel, case["layout"])
+    dflt = bytes.fromhex(case["no_sample_default"])
+    if via == "write_file":
+        fd, path = tempfile.mkstemp(prefix="c05-", suffix=".bms")
+        os.close(fd)
+        try:
+            m.write_file(path, cfg, no_sample_default=dflt)
+            with open(path, "rb") as f:
+                return f.read()
+        finally:
+            try:
+                os.remove(path)
+            except OSError:
+                pass
+    return m.write(cfg, no_sample_default=dflt)
+
+
+def apply_edit(m, e, ncol):
+    """in-place edits of the chart through the list property setters / the map's list setters"""
+    kind = e.get("edit")
+    if kind == "hits_shift" and len(m.hits):
+        m.hits.offset = m.hits.offset + float(e.get("ms", 0))
+    elif kind == "hits_cols" and len(m.hits):
+        m.hits.column = (m.hits.column + int(e.get("k", 1))) % ncol
+    elif kind == "bpm_scale":
+        m.bpms.bpm = m.bpms.bpm * float(e.get("f", 2))
+    elif kind == "holds_len" and len(m.holds):
+        m.holds.length = m.holds.length * float(e.get("f", 0.5))
+    elif kind == "bpms_reverse":
+        m.bpms = type(m.bpms)(m.bpms.df.iloc[::-1])
+    elif kind == "holds_shift" and len(m.holds):
+        m.holds.offset = m.holds.offset + float(e.get("ms", 0))
+
+
+def run(case, drv):
+    """build the chart once, then run the script of the case: writes (in memory / to a file) and in-place edits.
+    Every write is judged against the chart as it is at that moment; the chart is snapshotted around each write."""
     import logging
     import warnings
-    BMSMap, BMSChannel, *_ = _imports()
+    ops = case.get("ops") or ["write"]
+    logging.disable(logging.CRITICAL)
+    results = []
+    try:
+        with warnings.catch_warnings():
+            warnings.simplefilter("ignore")
+            # another chart is written first in EVERY run (state leaking between writes of different charts shows in a
+            # replay as well)
+            try:
+                do_write(build_map(POISON_CHART), POISON_CHART, "write")
+            except Exception:
+                pass
+            m = build_map(case)
+            for step, op in enumerate(ops):
+                if isinstance(op, dict):
+                    apply_edit(m, op, LAYOUT_COLS[case["layout"]])
+                    continue
+                before = snapshot(m)
+                dflt_labels = labels_default(m)
+                try:
+                    b = do_write(m, case, op)
+                    impl4 = ("ok", b.split(b"\r\n"), before["rows"], dflt_labels)
+                except Exception as e:
+                    impl4 = ("err", err_class(e), before["rows"], dflt_labels)
+                after = snapshot(m)
+                logging.disable(logging.NOTSET)
+                r = judge(case, drv, impl4)
+                logging.disable(logging.CRITICAL)
+                r["tags"] = list(r.get("tags", [])) + [f"op:{op}"] + ([f"step{step}"] if step else [])
+                if before != after:
+                    r["ok"] = False
+                    r["kf"] = None
+                    r.setdefault("detail", {})["chart_modified"] = dict(
+                        step=step, changed=[k for k in before if before[k] != after[k]])
+                    r["tags"].append("chart-modified-by-writer")
+                results.append(r)
+                if r["ok"] is not True or not r["agree"]:
+                    break
+    finally:
+        logging.disable(logging.NOTSET)
+    if not results:
+        return dict(claim="write", ok=True, agree=True, dom=False, kf=None, tags=["no-write"], nontrivial=False)
+    last = results[-1]
+    if last["ok"] is not True or not last["agree"]:
+        return last
+    out = dict(results[0])
+    out["tags"] = sorted({t for r in results for t in r.get("tags", [])})
+    out["dom"] = all(r.get("dom") for r in results)
+    out["nontrivial"] = any(r.get("nontrivial") for r in results)
+    out["maxdev"] = max(float(r.get("maxdev") or 0.0) for r in results)
+    out["boundary"] = any(r.get("boundary") for r in results)
+    if len(results) > 1:
+        out["tags"].append("several-writes")
+    return out
+
+
+def run_impl(case):
+    """one plain write of the chart as built: (verdict, lines | error class, rows in row order, default labels?)"""
+    import logging
+    import warnings
     logging.disable(logging.CRITICAL)
     try:
         with warnings.catch_warnings():
@@ -378,7 +509,7 @@ def run_impl(case):
             rows = rows_of(m)
             dflt = labels_default(m)
             try:
-                b = m.write(getattr(BMSChannel, case["layout"]), no_sample_default=bytes.fromhex(case["no_sample_default"]))
+                b = do_write(m, case, "write")
                 return ("ok", b.split(b"\r\n"), rows, dflt)
             except Exception as e:
                 return ("err", err_class(e), rows, dflt)
@@ -424,9 +555,9 @@ def group(rows, key_n):
     return {k: sorted(v) for k, v in g.items()}
 
 
-def run(case, drv):
+def judge(case, drv, impl4):
+    """one write, judged against the chart as it was when the writer was called (`impl4[2]`: its rows in row order)"""
     layout = case["layout"]
-    impl4 = run_impl(case)
     impl = impl4[:2]
     # the chart as built (rows in ROW ORDER after the history): what the writer was given
     r_bpms, r_hits, r_holds = impl4[2]
